@@ -328,6 +328,7 @@ func (s *SpecValidator) validateCircularAncestry(nm string, sch spec.Schema, kno
 	schn := nm
 	schc := &sch
 
+	followed := false // a $ref was followed: schn names the definition it leads to
 	seenRefs := make(map[string]struct{})
 	for schc.Ref.String() != "" {
 		if _, seen := seenRefs[schc.Ref.String()]; seen {
@@ -342,9 +343,10 @@ func (s *SpecValidator) validateCircularAncestry(nm string, sch spec.Schema, kno
 		}
 		schc = reso
 		schn = sch.Ref.String()
+		followed = true
 	}
 
-	if schn != nm && schn != "" {
+	if followed && schn != "" {
 		if _, ok := knowns[schn]; ok {
 			ancs = append(ancs, schn)
 		}
@@ -369,7 +371,7 @@ func (s *SpecValidator) validateCircularAncestry(nm string, sch spec.Schema, kno
 			}
 		}
 	}
-	if schn != nm && schn != "" {
+	if followed && schn != "" {
 		// ancestry is a path, not everything visited so far: an ancestor shared by two branches is not a cycle
 		delete(knowns, schn)
 	}
